@@ -92,8 +92,23 @@ def check_case(case):
     return bad, m
 
 
+def swept_twin(case, k):
+    """the same topology and names with other capacitances / inductances (a parameter sweep within one session)"""
+    import copy
+    r = random.Random(k)
+    twin = copy.deepcopy(case)
+    for c in twin['components']:
+        if c['kind'] == 'capacitor':
+            c['params']['C'] = r.choice([v for v in ssrun.C_VALUES if v != c['params']['C']])
+        if c['kind'] == 'inductance':
+            c['params']['L'] = r.choice([v for v in ssrun.L_VALUES if v != c['params']['L']])
+    return twin
+
+
 def examine(ctx, cases):
+    prev = None
     for origin, case in cases:
+        before, prev = prev, case
         ctx.evaluations += 1
         ctx.count('stream:' + origin)
         if not ssrun.nondegenerate(case):
@@ -106,7 +121,10 @@ def examine(ctx, cases):
         bad, m = check_case(case)
         for key, what in bad:
             small = ssrun.shrink(case, lambda cc, key=key: ssrun.nondegenerate(cc) and any(k == key for k, _ in check_case(cc)[0]))
-            ctx.violation(key, what, {'circuit': small})
+            rep = {'circuit': small}
+            if origin == 'swept' and before is not None:
+                rep['analysed_before'] = before       # matters only if the failure needs the earlier analysis in the same process
+            ctx.violation(key, what, rep)
         if nst >= 1:
             ctx.nontriv([(c['kind'], c['id'], c['nodes'], sorted(c['params'].items())) for c in case['components']])
         ctx.sample({'circuit': case}, cap=3)
@@ -131,6 +149,8 @@ def gen(ctx, n_quick, n_thorough, seed_off, min_states=0):
                     break
                 c = ssrun.gen_circuit(rng)
         out.append(('random', c))
+        if k % 4 == 1 and any(x['kind'] in ('capacitor', 'inductance') for x in c['components']):
+            out.append(('swept', swept_twin(c, k)))
     return out
 
 
@@ -145,5 +165,6 @@ def run(ctx):
 def replay(ctx, obj):
     ctx.trusted = TRUSTED
     if standard_prologue(ctx):
-        examine(ctx, [('replay', obj['case']['circuit'])])
+        c = obj['case']
+        examine(ctx, ([('replay', c['analysed_before'])] if 'analysed_before' in c else []) + [('swept' if 'analysed_before' in c else 'replay', c['circuit'])])
     return RULE
